@@ -15,9 +15,12 @@
     - Assumed, checked per run by the harness: boost::hash<std::string> is injective on the labels
       that occur (the real map is keyed by the hash of the label).
 
-    Only partially formalised (see the last theorem): "every result changes only by the induced
-    permutation" for operators and observables.  That part of C18 is covered by differential runs
-    of the whole ED chain (harness/h_c18_phys.cpp, checks/C18.py). *)
+    "Every result changes only by the induced permutation": for operators this is proved for every
+    permutation (second part of this file: [sem_permute_monomial], [sem_permute_poly],
+    [hamiltonian_matrix_relabel]); for observables it is proved relative to a transported
+    eigen-system ([observables_relabel_partial]); what remains open -- independence of the
+    observables from the choice of the eigen-decomposition -- is stated there and is covered by
+    differential runs of the whole ED chain (harness/h_c18_phys.cpp, checks/C18.py). *)
 Require Import Bool List Arith Permutation Ring_theory.
 From PV Require Import Outcome Index IndexProofs Fock Poly PolySem IndexSem.
 
@@ -183,6 +186,7 @@ Print Assumptions rename_is_mode_permutation.
       - [sem_permute_poly_partial]: every matrix element of a polynomial (PV.PolySem.coef_poly, any
         commutative ring of coefficients, polynomial normal-ordered or not):
         <U_pi t| pi(P) |U_pi s> = <t| P |s>,  i.e.  pi(P) = U_pi P U_pi^{-1}.
+    (Both items below are addressed in the second part of this file, after these two theorems.)
     Missing: "every permutation is a product of adjacent transpositions" (so that the pi of
       [rename_is_mode_permutation] is of this form), and the linear algebra from conjugate
       Hamiltonians / field operators to equal spectra and permuted observables.  Those steps are
@@ -212,3 +216,217 @@ Theorem sem_permute_poly_partial :
                (PolySem.coef_poly K k0 k1 kadd kmul kopp p s t).
 Proof. exact IndexSem.sem_permute_poly_partial. Qed.
 Print Assumptions sem_permute_poly_partial.
+
+(** * The operator-level part of C18 for EVERY permutation, and the observables
+
+    Added after the block above (which is kept unchanged).  The two gaps named there are closed as follows.
+    (1) "every permutation is a product of adjacent transpositions":
+        [perm_is_product_of_adjacent_transpositions]; [index_perm_perm_on] shows that the pi of
+        [rename_is_mode_permutation] (relabelling, re-ordering the addSite calls, switching the ordering
+        mode) is such a permutation, so [sem_permute_monomial], [sem_permute_poly] (any [perm_on N pi]) and
+        [sem_permute_poly_relabel] (that pi) hold without a hypothesis on the shape of pi.
+        U_pi |s> = (-1)^(fock_sign N pi s) |fock_perm N pi s>  does not depend on the word chosen:
+        [fock_perm_nth], [fock_sign_inversions].
+    (2) "conjugate Hamiltonians give permuted observables", on the executable specification PV.EDSpec, over any
+        number type whose operations form a commutative ring and whose conjugation commutes with negation:
+        [poly_matrix_permuted], [hamiltonian_matrix_relabel]: poly_matrix of the renamed polynomial = P H P^T
+        with P the orthogonal signed permutation matrix of U_pi; [rotate_permuted]: (PU)^+ (P O P^T) (PU) = U^+ O U;
+        [eigen_system_permuted], [residual_HU_zero]: exact eigen-systems go to exact eigen-systems (same E);
+        [observables_relabel_partial]: G_ij(z), G_ij(tau), <c^+_i c_j>, susceptibilities and the two-particle
+        Green's function computed from (E, P U) and the NEW indices pi(i) equal those from (E, U) and the OLD ones.
+    STILL PARTIAL (hence the name of the last theorem).  Full statement, not proved:
+        for H Hermitian and ANY two eigen-decompositions (E1, U1), (E2, U2) of H with U1, U2 unitary, the
+        observables of EDSpec built from them are equal (so that the library's own, independent diagonalisation
+        of the relabelled Hamiltonian may be used instead of (E, P U)), and E1, E2 are equal as multisets.
+      This is uniqueness of the spectral decomposition (observables depend on U only through the spectral
+      projectors); it needs the spectral theorem and is not formalised.  PV.Rotate.similar_same_charpoly (C03)
+      gives the multiset statement for mathcomp matrices but is not bridged to these list matrices here.
+      Also outside: floating-point rounding, and the library's thresholds.  These steps remain covered by the
+      differential runs of the whole ED chain (harness/h_c18_phys.cpp, checks/C18.py).
+    Non-vacuity: PV.IndexPermExamples (a 3-cycle on 3 modes with a non-invariant Hamiltonian, all statements
+    evaluated by vm_compute; the 11-mode pi of the relabelling example). *)
+Require Import Lia.
+From PV Require Import EDSpec IndexPerm IndexPermProofs IndexObs IndexObsProofs.
+From PV Require IndexPermExamples.
+
+Theorem perm_is_product_of_adjacent_transpositions : forall (N : nat) (pi : nat -> nat),
+  (forall i, i < N -> pi i < N) ->
+  (forall i j, i < N -> j < N -> pi i = pi j -> i = j) ->
+  exists ks, (forall k, In k ks -> S k < N) /\ (forall i, i < N -> IndexSem.perm_of ks i = pi i).
+Proof. exact IndexPermProofs.perm_is_product_of_adjacent_transpositions. Qed.
+Print Assumptions perm_is_product_of_adjacent_transpositions.
+
+(** the pi of [rename_is_mode_permutation] is a permutation of 0..N-1 in the sense used below
+    ([perm_on N pi]: maps 0..N-1 into itself, injective there, indices >= N stay >= N) *)
+Theorem index_perm_perm_on :
+  forall (fx1 m1 fx2 m2 : bool) (calls1 calls2 : list site) (f g : label -> label) (t1 t2 : table),
+  NoDup (labels calls1) ->
+  (forall l, In l (labels calls1) -> g (f l) = l) ->
+  Permutation (map (rename_site f) calls1) calls2 ->
+  harmless fx1 m1 (site_map calls1) -> harmless fx2 m2 (site_map calls2) ->
+  prepare_lattice fx1 m1 calls1 = Done t1 ->
+  prepare_lattice fx2 m2 calls2 = Done t2 ->
+  perm_on (IndexSize t1) (index_perm t1 t2 f) /\ IndexSize t2 = IndexSize t1.
+Proof. exact IndexPermProofs.index_perm_perm_on. Qed.
+Print Assumptions index_perm_perm_on.
+
+(** U_pi m U_pi^{-1} = pi(m) on basis states, for every permutation pi of 0..N-1; Pauli zeros and
+    out-of-range indices are preserved *)
+Theorem sem_permute_monomial : forall (N : nat) (pi : nat -> nat) (m : list Fock.op) (s : Fock.state),
+  perm_on N pi -> length s = N ->
+  Fock.act_mono (map (ren_op pi) m) (fock_perm N pi s) =
+  match Fock.act_mono m s with
+  | Done (Some (sg, s')) =>
+    Done (Some (xorb sg (xorb (fock_sign N pi s) (fock_sign N pi s')), fock_perm N pi s'))
+  | r => r
+  end.
+Proof. exact IndexPermProofs.sem_permute_monomial. Qed.
+Print Assumptions sem_permute_monomial.
+
+(** <U_pi t| pi(P) |U_pi s> = <t| P |s>, i.e. pi(P) = U_pi P U_pi^{-1}, for every permutation pi *)
+Theorem sem_permute_poly :
+  forall (K : Type) (k0 k1 : K) (kadd kmul ksub : K -> K -> K) (kopp : K -> K),
+  ring_theory k0 k1 kadd kmul ksub kopp (@eq K) ->
+  forall (N : nat) (pi : nat -> nat) (p : Poly.poly K) (s t : Fock.state),
+  perm_on N pi -> length s = N ->
+  PolySem.coef_poly K k0 k1 kadd kmul kopp (poly_ren K pi p) (fock_perm N pi s) (fock_perm N pi t) =
+  IndexSem.sgn K kopp (xorb (fock_sign N pi s) (fock_sign N pi t))
+               (PolySem.coef_poly K k0 k1 kadd kmul kopp p s t).
+Proof. exact IndexPermProofs.sem_permute_poly. Qed.
+Print Assumptions sem_permute_poly.
+
+(** ... read for the tables: relabelling sites, re-ordering the addSite calls or switching the ordering mode
+    conjugates the matrix of every polynomial by the signed permutation of Fock states induced by
+    pi = index_perm t1 t2 f *)
+Theorem sem_permute_poly_relabel :
+  forall (K : Type) (k0 k1 : K) (kadd kmul ksub : K -> K -> K) (kopp : K -> K),
+  ring_theory k0 k1 kadd kmul ksub kopp (@eq K) ->
+  forall (fx1 m1 fx2 m2 : bool) (calls1 calls2 : list site) (f g : label -> label) (t1 t2 : table),
+  NoDup (labels calls1) ->
+  (forall l, In l (labels calls1) -> g (f l) = l) ->
+  Permutation (map (rename_site f) calls1) calls2 ->
+  harmless fx1 m1 (site_map calls1) -> harmless fx2 m2 (site_map calls2) ->
+  prepare_lattice fx1 m1 calls1 = Done t1 ->
+  prepare_lattice fx2 m2 calls2 = Done t2 ->
+  let N := IndexSize t1 in
+  let pi := index_perm t1 t2 f in
+  forall (p : Poly.poly K) (s t : Fock.state), length s = N ->
+  PolySem.coef_poly K k0 k1 kadd kmul kopp (poly_ren K pi p) (fock_perm N pi s) (fock_perm N pi t) =
+  IndexSem.sgn K kopp (xorb (fock_sign N pi s) (fock_sign N pi t))
+               (PolySem.coef_poly K k0 k1 kadd kmul kopp p s t).
+Proof. exact IndexPermProofs.sem_permute_poly_relabel. Qed.
+Print Assumptions sem_permute_poly_relabel.
+
+(** what U_pi is, independently of the word of transpositions: mode pi(i) of U_pi s is mode i of s ... *)
+Theorem fock_perm_nth : forall (N : nat) (pi : nat -> nat) (s : Fock.state) (i : nat),
+  perm_on N pi -> length s = N -> i < N ->
+  nth (pi i) (fock_perm N pi s) false = nth i s false.
+Proof. exact IndexPermProofs.fock_perm_nth. Qed.
+Print Assumptions fock_perm_nth.
+
+(** ... and the sign is the parity of the number of pairs of occupied modes whose order pi reverses *)
+Theorem fock_sign_inversions : forall (N : nat) (pi : nat -> nat) (s : Fock.state),
+  perm_on N pi -> length s = N -> fock_sign N pi s = inv_parity N pi s.
+Proof. exact IndexPermProofs.fock_sign_inversions. Qed.
+Print Assumptions fock_sign_inversions.
+
+(** the Fock-space matrix (EDSpec.poly_matrix, the specification of the Hamiltonian and operator matrices)
+    of the renamed polynomial is P H P^T, P = signed permutation matrix of U_pi *)
+Theorem poly_matrix_permuted :
+  forall (K : Type) (NO : numops K),
+  ring_theory (n0 K NO) (n1 K NO) (nadd K NO) (nmul K NO) (nsub K NO) (nopp K NO) (@eq K) ->
+  forall (M : nat) (pi : nat -> nat), perm_on M pi ->
+  forall p : list (Poly.monomial * K),
+  poly_matrix K NO M (poly_ren K pi p) = pconj K NO (fock_sperm M pi) (poly_matrix K NO M p).
+Proof. exact IndexObsProofs.poly_matrix_permuted. Qed.
+Print Assumptions poly_matrix_permuted.
+
+Theorem hamiltonian_matrix_relabel :
+  forall (K : Type) (NO : numops K),
+  ring_theory (n0 K NO) (n1 K NO) (nadd K NO) (nmul K NO) (nsub K NO) (nopp K NO) (@eq K) ->
+  forall (fx1 m1 fx2 m2 : bool) (calls1 calls2 : list site) (f g : label -> label) (t1 t2 : table),
+  NoDup (labels calls1) ->
+  (forall l, In l (labels calls1) -> g (f l) = l) ->
+  Permutation (map (rename_site f) calls1) calls2 ->
+  harmless fx1 m1 (site_map calls1) -> harmless fx2 m2 (site_map calls2) ->
+  prepare_lattice fx1 m1 calls1 = Done t1 ->
+  prepare_lattice fx2 m2 calls2 = Done t2 ->
+  let N := IndexSize t1 in
+  let pi := index_perm t1 t2 f in
+  let P := fock_sperm N pi in
+  let dim := Nat.pow 2 N in
+  forall p : list (Poly.monomial * K),
+    poly_matrix K NO N (poly_ren K pi p) = pconj K NO P (poly_matrix K NO N p) /\
+    pconj K NO P (poly_matrix K NO N p) =
+      mmul K NO dim (mmul K NO dim (Pmat K NO P) (poly_matrix K NO N p)) (transpose K NO dim (Pmat K NO P)) /\
+    mmul K NO dim (transpose K NO dim (Pmat K NO P)) (Pmat K NO P) = identity_matrix K NO dim.
+Proof. exact IndexObsProofs.hamiltonian_matrix_relabel. Qed.
+Print Assumptions hamiltonian_matrix_relabel.
+
+(** any signed permutation Q of the basis, dim x dim matrices: the operator in the eigenbasis is literally the
+    same list of rows, (P U)^+ (P O P^T) (P U) = U^+ O U *)
+Theorem rotate_permuted :
+  forall (K : Type) (NO : numops K),
+  ring_theory (n0 K NO) (n1 K NO) (nadd K NO) (nmul K NO) (nsub K NO) (nopp K NO) (@eq K) ->
+  forall Q : sperm, sperm_ok Q ->
+  (forall x, nconj K NO (nopp K NO x) = nopp K NO (nconj K NO x)) ->
+  forall U Om : EDSpec.mat K, wfm K (sp_dim Q) U -> wfm K (sp_dim Q) Om ->
+  rotate K NO (sp_dim Q) (prow K NO Q U) (pconj K NO Q Om) = rotate K NO (sp_dim Q) U Om.
+Proof. exact IndexObsProofs.rotate_permuted. Qed.
+Print Assumptions rotate_permuted.
+
+(** (E, U) exact eigen-system of H  =>  (E, P U) exact eigen-system of P H P^T *)
+Theorem eigen_system_permuted :
+  forall (K : Type) (NO : numops K),
+  ring_theory (n0 K NO) (n1 K NO) (nadd K NO) (nmul K NO) (nsub K NO) (nopp K NO) (@eq K) ->
+  forall Q : sperm, sperm_ok Q ->
+  forall (H U : EDSpec.mat K) (E : EDSpec.vec K), wfm K (sp_dim Q) H -> wfm K (sp_dim Q) U ->
+  eigen_system K NO (sp_dim Q) H U E -> eigen_system K NO (sp_dim Q) (pconj K NO Q H) (prow K NO Q U) E.
+Proof. exact IndexObsProofs.eigen_system_permuted. Qed.
+Print Assumptions eigen_system_permuted.
+
+(** the certificate of the correspondence checks (EDSpec.residual_HU) is 0 on an exact eigen-system *)
+Theorem residual_HU_zero :
+  forall (K : Type) (NO : numops K),
+  ring_theory (n0 K NO) (n1 K NO) (nadd K NO) (nmul K NO) (nsub K NO) (nopp K NO) (@eq K) ->
+  forall (dim : nat) (H U : EDSpec.mat K) (E : EDSpec.vec K),
+  length H = dim -> nabs K NO (n0 K NO) = n0 K NO -> eigen_system K NO dim H U E ->
+  residual_HU K NO dim H U E = n0 K NO.
+Proof. exact IndexObsProofs.residual_HU_zero. Qed.
+Print Assumptions residual_HU_zero.
+
+(** PARTIAL -- see the comment at the head of this part for the full statement and what is missing. *)
+Theorem observables_relabel_partial :
+  forall (K : Type) (NO : numops K),
+  ring_theory (n0 K NO) (n1 K NO) (nadd K NO) (nmul K NO) (nsub K NO) (nopp K NO) (@eq K) ->
+  (forall x, nconj K NO (nopp K NO x) = nopp K NO (nconj K NO x)) ->
+  forall (fx1 m1 fx2 m2 : bool) (calls1 calls2 : list site) (f g : label -> label) (t1 t2 : table),
+  NoDup (labels calls1) ->
+  (forall l, In l (labels calls1) -> g (f l) = l) ->
+  Permutation (map (rename_site f) calls1) calls2 ->
+  harmless fx1 m1 (site_map calls1) -> harmless fx2 m2 (site_map calls2) ->
+  prepare_lattice fx1 m1 calls1 = Done t1 ->
+  prepare_lattice fx2 m2 calls2 = Done t2 ->
+  let N := IndexSize t1 in
+  let pi := index_perm t1 t2 f in
+  let P := fock_sperm N pi in
+  let dim := Nat.pow 2 N in
+  forall (H : list (Poly.monomial * K)) (U : EDSpec.mat K) (E w : EDSpec.vec K),
+  wfm K dim U ->
+  let U' := prow K NO P U in
+  let C u i := rotate K NO dim u (op_matrix K NO N (Fock.cann i)) in
+  let CX u i := rotate K NO dim u (op_matrix K NO N (Fock.cdag i)) in
+  (eigen_system K NO dim (poly_matrix K NO N H) U E ->
+   eigen_system K NO dim (poly_matrix K NO N (poly_ren K pi H)) U' E) /\
+  residual_unitary K NO dim U' = residual_unitary K NO dim U /\
+  (forall i j z, gf K NO E w (C U' (pi i)) (CX U' (pi j)) z = gf K NO E w (C U i) (CX U j) z) /\
+  (forall i j tau, gf_tau K NO E w (C U' (pi i)) (CX U' (pi j)) tau = gf_tau K NO E w (C U i) (CX U j) tau) /\
+  (forall i j, trace_rho K NO w (quad K NO N U' (pi i) (pi j)) = trace_rho K NO w (quad K NO N U i j)) /\
+  (forall beta tol a b c d z z0,
+     susc K NO beta tol E w (quad K NO N U' (pi a) (pi b)) (quad K NO N U' (pi c) (pi d)) z z0 =
+     susc K NO beta tol E w (quad K NO N U a b) (quad K NO N U c d) z z0) /\
+  (forall beta tol i j k l z1 z2 z3,
+     chi K NO beta tol E w (C U' (pi i)) (C U' (pi j)) (CX U' (pi k)) (CX U' (pi l)) z1 z2 z3 =
+     chi K NO beta tol E w (C U i) (C U j) (CX U k) (CX U l) z1 z2 z3).
+Proof. exact IndexObsProofs.observables_relabel_partial. Qed.
+Print Assumptions observables_relabel_partial.
